@@ -349,7 +349,7 @@ fn run_random(prop: &dyn Prop, sub: &str, cases: u64, len: usize, seed: u64, sc:
         let cfg = Config { cases: remaining as u32, failure_persistence: None, max_shrink_iters: 2000, max_global_rejects: u32::MAX, ..Config::default() };
         let rng = TestRng::from_seed(RngAlgorithm::ChaCha, &seed_bytes(seed, prop.id(), sub, sc.shard * 16 + round));
         let mut runner = TestRunner::new_with_rng(cfg, rng);
-        let strat = vec(any::<u16>(), 0..len);
+        let strat = vec(any::<u16>(), (len / 2)..=len);
         let mut target: Option<String> = None;
         let mut done_in_round = 0u64;
         let mut minimal: Option<(Case, Failure)> = None;
